@@ -151,9 +151,49 @@ class Monitor:
         os.write(self.w, (json.dumps(dict(budget=budget, label=label)) + "\n").encode())
 
 
+WARM_SPECS = [
+    dict(kind="sphere", center=[0.0, 0.0, 0.0], radius=1.0),
+    dict(kind="box", pose=np.eye(4).tolist(), size=[1.0, 1.0, 1.0]),
+    dict(kind="capsule", pose=np.eye(4).tolist(), radius=0.5, height=1.0),
+    dict(kind="cylinder", pose=np.eye(4).tolist(), radius=0.5, length=1.0),
+    dict(kind="ellipsoid", pose=np.eye(4).tolist(), radii=[1.0, 0.5, 0.25]),
+    dict(kind="cone", pose=np.eye(4).tolist(), radius=0.5, height=1.0),
+    dict(kind="disk", center=[0.0, 0.0, 0.0], radius=1.0, normal=[0.0, 0.0, 1.0]),
+    dict(kind="ellipse", center=[0.0, 0.0, 0.0], axes=[[1.0, 0.0, 0.0], [0.0, 1.0, 0.0]], radii=[1.0, 0.5]),
+    dict(kind="mesh", pose=np.eye(4).tolist(), vertices=[[0.0, 0.0, 0.0], [1.0, 0.0, 0.0], [0.0, 1.0, 0.0], [0.0, 0.0, 1.0]]),
+    dict(kind="hull", vertices=[[0.0, 0.0, 0.0], [1.0, 0.0, 0.0], [0.0, 1.0, 0.0], [0.0, 0.0, 1.0]], margin=0.1),
+]
+WARM_OPS = ["gjk_jolt", "gjk_original", "nesterov_distance", "nesterov", "isect_jolt", "isect_libccd", "isect_mpr",
+            "isect_nesterov", "mpr_pen", "epa"]
+WARM_PRIM_OPS = ["nesterov_prim_distance", "isect_nesterov_prim", "nesterov_prim"]
+
+
+def warm_up():
+    """compile / load from the numba cache everything the ops use BEFORE any per-op time limit applies (a cold cache
+    costs 10-60 s per function; an alarm firing inside the compiler is not a verdict and breaks the dispatcher)"""
+    if os.environ.get("NUMBA_DISABLE_JIT"):
+        return
+    cols = [NW.build(s) for s in WARM_SPECS]
+    far = NW.build(dict(kind="sphere", center=[0.25, 0.1, 0.2], radius=0.5))
+    sep = NW.build(dict(kind="box", pose=[[1.0, 0.0, 0.0, 5.0], [0.0, 1.0, 0.0, 0.0], [0.0, 0.0, 1.0, 0.0], [0.0, 0.0, 0.0, 1.0]],
+                        size=[1.0, 1.0, 1.0]))
+    for c in cols:
+        for other in (far, sep):
+            for fn in WARM_OPS:
+                run_op(dict(fn=fn, timeout=0), c, other)
+    prims = cols[:5]
+    for a in prims:
+        for b in prims[:2]:
+            for fn in WARM_PRIM_OPS:
+                run_op(dict(fn=fn, timeout=0), a, b)
+
+
 def main():
     payload = json.load(open(sys.argv[1]))
     mon = Monitor(sys.argv[2] + ".hang")
+    mon.beat(3000.0, dict(case=-2, op="warm-up"))
+    if payload.get("warm", True):
+        warm_up()
     res = []
     for ci, case in enumerate(payload["cases"]):
         mon.beat(120.0, dict(case=ci, op="build"))
